@@ -424,6 +424,8 @@ TCL = TypeVar('TCL', List[int], Tuple[str, ...])
 NTList = NewType('NTList', List[int])
 # PEP 695 aliases (reduced by beartype to their values; a union-valued alias inside a narrower union
 # is re-flattened into the enclosing union)
+TBU = TypeVar('TBU', bound=Union[int, str])
+NTNT = NewType('NTNT', NTInt)
 type AScalar = int | str | bytes
 type AListInt = List[int]
 type AOpt = AScalar | None
@@ -483,6 +485,24 @@ def special_hints():
         ('AGen[int]', AGen[int]), ('Union[AScalar,float]', Union[AScalar, float]), ('Optional[AWide]', Optional[AWide]),
         ('Union[AWide,UA]', Union[AWide, uc.UA]), ('Tuple[AOpt,...]', Tuple[AOpt, ...]), ('Union[UA,AOpt]', Union[uc.UA, AOpt]),
         ('Union[List[int],AWide]', Union[List[int], AWide]),
+        # PEP 646 fixed unpacking, LiteralString, ABC / protocol leaves, two-parameter user generic over dict,
+        # type variable bounded by a union, NewType of NewType
+        ('tuple[int,*tuple[str,int]]', tuple[int, *tuple[str, int]]),
+        ('Tuple[Unpack[Tuple[int,str]],Unpack[Tuple[int]]]', Tuple[typing.Unpack[Tuple[int, str]], typing.Unpack[Tuple[int]]]),
+        ('List[tuple[*tuple[int,str]]]', List[tuple[*tuple[int, str]]]),
+        ('LiteralString', typing.LiteralString), ('List[LiteralString]', List[typing.LiteralString]),
+        ('Hashable', typing.Hashable), ('Sized', typing.Sized), ('List[Hashable]', List[typing.Hashable]),
+        ('Dict[Hashable,Sized]', Dict[typing.Hashable, typing.Sized]),
+        ('Tuple[Sized,...]', Tuple[typing.Sized, ...]), ('Union[Sized,int]', Union[typing.Sized, int]),
+        ('UGenDict[str,int]', uc.UGenDict[str, int]), ('UGenDict[int,List[int]]', uc.UGenDict[int, List[int]]),
+        ('List[UGenDict[str,int]]', List[uc.UGenDict[str, int]]), ('Union[UGenDict[str,int],Dict[int,str]]', Union[uc.UGenDict[str, int], Dict[int, str]]),
+        ('UGenDict[str,UGenList[int]]', uc.UGenDict[str, uc.UGenList[int]]),
+        ('TBU', TBU), ('Optional[TBU]', Optional[TBU]), ('List[TBU]', List[TBU]), ('Dict[TBU,TB]', Dict[TBU, TB]),
+        ('NTNT', NTNT), ('List[NTNT]', List[NTNT]), ('Union[NTNT,str]', Union[NTNT, str]),
+        # a union whose direct member is also nested inside an earlier member (reduction guards must not leak between siblings)
+        ('Union[List[float],float]', Union[List[float], float]), ('Union[Dict[str,complex],complex]', Union[Dict[str, complex], complex]),
+        ('Union[List[str],str]', Union[List[str], str]), ('Union[Set[float],None,float]', Union[Set[float], None, float]),
+        ('Union[float,Tuple[float,...]]', Union[float, Tuple[float, ...]]), ('Union[List[int],int]', Union[List[int], int]),
     ]
     return out
 
